@@ -554,15 +554,15 @@ theorem copying_rows (T : Table) (op : Op) (h : op.copying T = true) :
 
 /-! ### the real table copies at every final position -/
 
-theorem final_rows_copy : ∀ p, p ∈ finalPositions →
-    chainDeep (copyDiscipline.disc p) = true := by decide
+theorem final_rows_copy (tz : Bool) : ∀ p, p ∈ finalPositions →
+    chainDeep ((disciplineFor tz).disc p) = true := by cases tz <;> decide
 
-theorem wellFormed_safe (w : World) (s : Step) (hw : s.wellFormed = true)
-    (hc : s.callerOwns w = true) : s.safe copyDiscipline w = true :=
-  within_safe copyDiscipline finalPositions final_rows_copy w s hw hc
+theorem wellFormed_safe (tz : Bool) (w : World) (s : Step) (hw : s.wellFormed = true)
+    (hc : s.callerOwns w = true) : s.safe (disciplineFor tz) w = true :=
+  within_safe (disciplineFor tz) finalPositions (final_rows_copy tz) w s hw hc
 
-theorem wfRun_safeRun : ∀ (steps : List Step) (w : World), wfRun copyDiscipline w steps = true →
-    safeRun copyDiscipline w steps = true := by
+theorem wfRun_safeRun (tz : Bool) : ∀ (steps : List Step) (w : World), wfRun (disciplineFor tz) w steps = true →
+    safeRun (disciplineFor tz) w steps = true := by
   intro steps
   induction steps with
   | nil => intro w _; simp [safeRun]
@@ -570,7 +570,7 @@ theorem wfRun_safeRun : ∀ (steps : List Step) (w : World), wfRun copyDisciplin
     intro w h
     simp only [wfRun, Bool.and_eq_true] at h
     simp only [safeRun, Bool.and_eq_true]
-    exact ⟨wellFormed_safe w s h.1.1 h.1.2, ih _ h.2⟩
+    exact ⟨wellFormed_safe tz w s h.1.1 h.1.2, ih _ h.2⟩
 
 /-! ### what a read hands out -/
 
@@ -600,10 +600,10 @@ theorem read_fresh_of (T : Table) (ps : List Pos) (hps : ∀ p, p ∈ ps → cha
     simp only [step]
     exact ind_pos (by omega)
 
-theorem read_fresh (w : World) (results : List Tpl) (hw : (Step.read results).wellFormed = true) :
-    ∃ new, (step copyDiscipline w (.read results)).held = w.held ++ new ∧ (idsL new).Nodup ∧
-      ∀ a, a ∈ idsL new → w.next ≤ a ∧ a < (step copyDiscipline w (.read results)).next :=
-  read_fresh_of copyDiscipline finalPositions final_rows_copy w results hw
+theorem read_fresh (tz : Bool) (w : World) (results : List Tpl) (hw : (Step.read results).wellFormed = true) :
+    ∃ new, (step (disciplineFor tz) w (.read results)).held = w.held ++ new ∧ (idsL new).Nodup ∧
+      ∀ a, a ∈ idsL new → w.next ≤ a ∧ a < (step (disciplineFor tz) w (.read results)).next :=
+  read_fresh_of (disciplineFor tz) finalPositions (final_rows_copy tz) w results hw
 
 theorem mutateL_append (id : Nat) (f : HVal → HVal) : ∀ (l1 l2 : List HVal),
     mutateL id f (l1 ++ l2) = mutateL id f l1 ++ mutateL id f l2 := by
@@ -614,13 +614,13 @@ theorem mutateL_append (id : Nat) (f : HVal → HVal) : ∀ (l1 l2 : List HVal),
 
 /-- editing an object that a read has just handed out changes nothing else: not the store, not a
     cursor's cache, not any object the caller held before -/
-theorem result_private (w : World) (hb : Bounded w) (results : List Tpl)
+theorem result_private (tz : Bool) (w : World) (hb : Bounded w) (results : List Tpl)
     (hw : (Step.read results).wellFormed = true) (id : Nat) (f : HVal → HVal)
-    (hid : id ∈ idsL ((step copyDiscipline w (.read results)).held.drop w.held.length)) :
-    ((step copyDiscipline w (.read results)).mutate id f).store = w.store ∧
-    ((step copyDiscipline w (.read results)).mutate id f).cache = w.cache ∧
-    ((step copyDiscipline w (.read results)).mutate id f).held.take w.held.length = w.held := by
-  obtain ⟨new, hnew, _, hfresh⟩ := read_fresh w results hw
+    (hid : id ∈ idsL ((step (disciplineFor tz) w (.read results)).held.drop w.held.length)) :
+    ((step (disciplineFor tz) w (.read results)).mutate id f).store = w.store ∧
+    ((step (disciplineFor tz) w (.read results)).mutate id f).cache = w.cache ∧
+    ((step (disciplineFor tz) w (.read results)).mutate id f).held.take w.held.length = w.held := by
+  obtain ⟨new, hnew, _, hfresh⟩ := read_fresh tz w results hw
   rw [hnew, List.drop_left] at hid
   have hge := (hfresh id hid).1
   have absent : ∀ l : List HVal, (∀ a, a ∈ idsL l → a < w.next) → cntL id l = 0 := by
@@ -628,8 +628,8 @@ theorem result_private (w : World) (hb : Bounded w) (results : List Tpl)
     rcases Nat.eq_zero_or_pos (cntL id l) with h0 | h0
     · exact h0
     · have := hl id ((mem_idsL_iff id l).mpr h0); omega
-  have hst : (step copyDiscipline w (.read results)).store = w.store := by simp [step]
-  have hca : (step copyDiscipline w (.read results)).cache = w.cache := by simp [step]
+  have hst : (step (disciplineFor tz) w (.read results)).store = w.store := by simp [step]
+  have hca : (step (disciplineFor tz) w (.read results)).cache = w.cache := by simp [step]
   refine ⟨?_, ?_, ?_⟩
   · simp only [World.mutate, hst]; exact mutateL_absent id f _ (absent _ hb.1)
   · simp only [World.mutate, hca]; exact mutateL_absent id f _ (absent _ hb.2.2)
@@ -637,9 +637,9 @@ theorem result_private (w : World) (hb : Bounded w) (results : List Tpl)
     simp
 
 /-- what a cursor hands out again does not depend on what the caller did to anything it holds -/
-theorem reread_unaffected (w : World) (id : Nat) (f : HVal → HVal) (hsep : Sep w)
+theorem reread_unaffected (tz : Bool) (w : World) (id : Nat) (f : HVal → HVal) (hsep : Sep w)
     (hid : id ∈ idsL w.held) (i : Nat) (p : List Nat) :
-    ∃ r, (step copyDiscipline (w.mutate id f) (.read [.piece .cursorOut (.cache i p)])).held
+    ∃ r, (step (disciplineFor tz) (w.mutate id f) (.read [.piece .cursorOut (.cache i p)])).held
         = (w.mutate id f).held ++ [r] ∧ r.erase = (getAt w.cache i p).erase := by
   refine ⟨_, by simp only [step, evalTpls_one]; rfl, ?_⟩
   simp only [evalTpl, Src.get, chain_erase, mutate_held_keeps_cache w id f hsep hid]
